@@ -86,6 +86,9 @@ EDGE_TEXTS = [
     # the same letter in both cases is two different variables
     "2x + 3X", "4p^2 + 3P^2", "x * X", "2x * 3X^2", "(2x + y) + 3X", "2x + 3X = 10", "x + X = 2x", "x / X", "x - X", "X + (x + X)",
     "1.5x + 1.5x", "0.1x + 0.2x", "0.1 + 0.2", "0.1 * 3", "1 / 3", "2 / 3 * 3", "10 * 0.1", "1000000 * 1000000", "99999 * 99999 + 1", "7x + 7x^1", "x^2 + x^2.0",
+    # coefficients with a fractional part beyond 2^32 (every value exactly representable; a half is not rounding noise)
+    "3x + 4294967297.5x", "8589934594x - (4294967296.5x + 4294967297.5x)", "4294967297.5x + 2x = 1", "5000000000.25y + 3y", "2y + 9999999999.5y", "4294967296.5z^2 + 4294967297.5z^2",
+    "1073741824.5x + x", "3.5x + 8589934592.5x",
     # folds whose result is tiny, or needs all 17 digits: a constant is not 'noise' because it is small
     "x = 3 / 8000000000000000", "x = 0.00000001 * 0.00000003", "x = 1 / 7000000000", "y = 0.000001 * 0.000001x", "3 / 8000000000000000 + y",
     "1 / 7000000000 * z", "0.00000000000000002 + 0.00000000000000001 + x", "x = 0.000000001 / 3", "2y = 1 / 3000000000000", "0.0000001 * (0.0000003 * p)",
@@ -115,6 +118,40 @@ BIG_TEXTS = [
 _H = "1" + "0" * 399
 BIG_TEXTS += [f"2.5x * {_H}", f"0.5 + ({_H} + y)", f"{_H} * (1.5 * y)", f"{_H} * 2.5", f"({_H} + 0.5) + x", f"{_H}x * 0.5", f"(x * 2.5) * {_H}", f"{_H} + (0.5 + y)",
               f"z = 1.5y * {_H}", f"{_H} * (2x * 0.25)", f"(0.5 + x) + {_H}", f"{_H} / 2.5 + x", f"3x * {_H}", f"{_H} * {_H} + 0.5x"]
+
+
+# like terms whose integer coefficient needs more than 64 bits (exact in Python, beyond numpy's integer types): with
+# every rule, factoring included
+WIDE_INT_TEXTS = ["18446744073709551617x + x", "18446744073709551616x + 2x", "x + 18446744073709551617x = 4", "36893488147419103232y^2 + 2y^2",
+                  "18446744073709551617 + 18446744073709551619", "3z * 18446744073709551629 + z", "18446744073709551617x + 18446744073709551617x"]
+
+
+def wide_ints(rec, rules):
+    """the wide-integer texts with every rule: listing, first match, and every listed application on a tree of
+    its own.  Apart from the general stream because the pinned factoring rule cannot even be asked about them
+    (see known_findings.json): every call is guarded here, the monitors decide each one."""
+    for text in WIDE_INT_TEXTS:
+        for label, rule in rules:
+            root = parse_start(text, allow_big=True)
+            if root is None:
+                continue
+            rec.arm("start:wide-int-text")
+            try:
+                count = len(rule.find_nodes(root))
+            except Exception:
+                count = 0
+            try:
+                rule.find_node(root)
+            except Exception:
+                pass
+            for j in range(min(count, 4)):
+                t = parse_start(text, allow_big=True)
+                try:
+                    nodes = rule.find_nodes(t)
+                    if j < len(nodes):
+                        rule.apply_to(nodes[j])
+                except Exception:
+                    pass
 
 
 def long_texts():
@@ -231,7 +268,7 @@ def parse_start(text, allow_big=False):
     except Exception:
         return None
     sh = S.shadow(root)
-    if (D.too_big(sh) and not allow_big and not D.is_long(sh)) or S.has_nonfinite(sh):
+    if (D.too_big(sh) and not allow_big and not D.is_long(sh) and text not in WIDE_INT_TEXTS) or S.has_nonfinite(sh):
         return None
     _STARTS[0] += 1
     if _STARTS[0] % 6 == 0:
